@@ -81,7 +81,10 @@ package scen
 // with quorum 1..4 and records on many peers, so that the quorum is reached
 // during the search, between search and follow-up, during the follow-up; late
 // replies of every kind); fullrt-ops / dual-ops and their -racy variants
-// (c03_clients.go).
+// (c03_clients.go); lagging-subscriber (c03_events.go: the callers'
+// lookup-event subscribers, registered on a context that outlives the
+// operation's, read slowly or stop reading, the event buffer is small -
+// cancel-not-prompt holds however far behind the subscriber is).
 //
 // Kept out of the schedule space of the ordinary scenarios because the outcome
 // is a coin of the Go runtime inside the system (select with two ready cases /
@@ -191,7 +194,11 @@ type c03cfg struct {
 	BigFollowUp bool   // quorum scenario: large K, small alpha/beta, quorum 1..2
 	LateRecords bool   // a cancelled GET_VALUE request to an honest holder of the record is always answered late, never lets the cancellation win
 	Client      string // "" the standard client on H1; "fullrt", "dual": c03_clients.go
-	Kinds       []int  // operation kinds to draw from (nil: the eight routing operations)
+	// Lag: the callers' lookup-event subscribers fall behind (c03_events.go):
+	// small event buffers, events read only when the scheduler says so, or not
+	// at all after a drawn number of events
+	Lag   bool
+	Kinds []int // operation kinds to draw from (nil: the eight routing operations)
 
 	N, K, Alpha, Beta int
 	FaultLevel        int // 0 none, 1 light, 2 heavy, 3 every peer fails
@@ -324,6 +331,17 @@ type c03op struct {
 	cancel   context.CancelFunc
 	evCancel context.CancelFunc
 	evCh     <-chan *dht.LookupEvent
+
+	// lagging lookup-event subscriber (c03_events.go); lag == 0: the subscriber
+	// keeps up (pump)
+	lag        int  // c03LagSlow, c03LagStall
+	evBuf      int  // capacity of the subscription's buffer (public knob LookupEventBufferSize)
+	evBurst    int  // slow reader: events taken per scheduled read
+	stallAfter int  // stalling reader: events taken before it stops reading
+	evTaken    int  // events the subscriber took while the operation's context was live
+	evBehind   bool // the subscriber has left events unread at a quiescent point
+	lastFull   bool // the buffer was full at the last quiescent point at which the operation's context was live
+	fullAtEnd  bool // ... and that was the last one before the context ended
 
 	api         *Op
 	gid         string
@@ -677,6 +695,9 @@ func runC03(s *sim.Sim, c c03cfg) {
 	var kinds []string
 	for _, op := range w.ops {
 		kinds = append(kinds, fmt.Sprintf("%s/c%d", op.name(), op.cancelMode))
+		if op.lag != 0 {
+			kinds[len(kinds)-1] += fmt.Sprintf("/lag%d:buf%d:burst%d:stall%d", op.lag, op.evBuf, op.evBurst, op.stallAfter)
+		}
 	}
 	s.Summary["cfg"] = fmt.Sprintf("N=%d K=%d alpha=%d beta=%d table=%d faults=%d optimistic=%v fed=%v pool=%d ops=%s faultStop=%d",
 		c.N, c.K, c.Alpha, c.Beta, h.DHT.RoutingTable().Size(), c.FaultLevel, c.Optimistic, w.fed, c.PoolSize, strings.Join(kinds, ","), w.faultStop)
@@ -959,6 +980,9 @@ func (w *c03world) genOp(i int, rng *subRng, usedTags map[string]bool) *c03op {
 			op.neverCancel = s.Chance("never-cancel", 2, 3)
 		}
 	}
+	if c.Lag {
+		w.genLag(op)
+	}
 	for _, k := range op.bulkKeys {
 		w.byKey[k] = op
 	}
@@ -992,7 +1016,14 @@ func (w *c03world) spawn(op *c03op) {
 		// hangs off context.Background()
 		op.base = sim.WithTag(context.Background(), op.tag)
 	} else {
+		// the registration context outlives the operation's context: it is
+		// cancelled at teardown ("MUST be canceled when the caller is no longer
+		// interested in query events"), the operation runs under a child of it
 		evCtx, evCancel := context.WithCancel(context.Background())
+		if op.lag != 0 {
+			defer func(n int) { dht.LookupEventBufferSize = n }(dht.LookupEventBufferSize)
+			dht.LookupEventBufferSize = op.evBuf
+		}
 		regCtx, evCh := dht.RegisterForLookupEvents(evCtx)
 		op.evCancel, op.evCh = evCancel, evCh
 		op.base = sim.WithTag(regCtx, op.tag)
@@ -1322,6 +1353,9 @@ func (w *c03world) actions() (acts []sim.Action, wake time.Duration) {
 			}
 			continue
 		}
+		if w.cfg.Lag && w.withheld(p) {
+			continue // enabled again once the subscriber has read (its "evread" action is enabled), or the context ends
+		}
 		if at := w.readyAt(p); at > now {
 			if wake == 0 || at-now < wake {
 				wake = at - now
@@ -1332,6 +1366,9 @@ func (w *c03world) actions() (acts []sim.Action, wake time.Duration) {
 			continue // enabled again once the consumer has read (its "consume" action is enabled)
 		}
 		acts = append(acts, sim.Action{ID: p.ID, Do: func() { w.deliver(p) }})
+	}
+	if w.cfg.Lag {
+		acts, wake = w.lagActions(acts, wake)
 	}
 	return acts, wake
 }
@@ -1422,6 +1459,10 @@ func (w *c03world) pump() {
 		if op.evCh == nil {
 			continue
 		}
+		if op.lag != 0 {
+			w.pumpLag(op)
+			continue
+		}
 	loop:
 		for {
 			select {
@@ -1500,6 +1541,9 @@ func (w *c03world) errClass(err error) string {
 func (w *c03world) observe() {
 	s := w.s
 	w.pump()
+	if w.cfg.Lag {
+		w.lagObserve()
+	}
 	for _, op := range w.ops {
 		if !op.started || op.abandoned || op.finished {
 			continue
@@ -1518,6 +1562,7 @@ func (w *c03world) observe() {
 			s.Count("probe_deadline_expired_in_flight")
 			s.Count("probe_deadline_" + op.cancelPhase)
 			w.countStorePhase(op)
+			w.lagAtCtxEnd(op)
 			s.Tracef("deadline %s", op.tag)
 		}
 		if op.cancelled {
@@ -1545,6 +1590,9 @@ func (w *c03world) onFinished(op *c03op) {
 		}
 		if op.apiReturned.Load() {
 			s.Count("probe_chan_closed_after_cancel")
+		}
+		if op.fullAtEnd {
+			s.Count("probe_lag_prompt_judged_buffer_full")
 		}
 	}
 	if op.inDrain {
@@ -1586,6 +1634,10 @@ func (w *c03world) onFinished(op *c03op) {
 			}
 		}
 	}
+	if op.lag != 0 {
+		s.State("%s c=%v/%s term=%s err=%s fl=%d lag=%d full=%v", op.name(), op.cancelled, op.cancelPhase, op.termReason, w.errClass(op.api.Err), w.cfg.FaultLevel, op.lag, op.fullAtEnd)
+		return
+	}
 	s.State("%s c=%v/%s term=%s err=%s fl=%d", op.name(), op.cancelled, op.cancelPhase, op.termReason, w.errClass(op.api.Err), w.cfg.FaultLevel)
 }
 
@@ -1615,6 +1667,9 @@ func (w *c03world) checkPrompt(op *c03op) {
 		return
 	}
 	what := fmt.Sprintf("context done since step %d, every parked call of the operation whose context is done has observed it, yet %v of virtual time later it has not returned", op.cancelStep, c03PromptSlop)
+	if op.lag != 0 {
+		what += w.lagNote(op)
+	}
 	if len(pending) > 0 {
 		what += fmt.Sprintf(" - it is still waiting for %d request(s) that it runs under a context the caller's cancellation does not reach (%s): the peers addressed are merely slow or silent, which the caller's cancellation must not depend on", len(pending), strings.Join(pending, ", "))
 	}
@@ -1704,6 +1759,7 @@ func (w *c03world) applyCancels() bool {
 			s.Count("probe_" + w.cfg.Client + "_cancel_" + op.cancelPhase)
 		}
 		w.countStorePhase(op)
+		w.lagAtCtxEnd(op)
 		s.Tracef("cancel %s %s", op.tag, op.cancelPhase)
 		op.cancel()
 		s.Quiesce()
@@ -1724,6 +1780,9 @@ func (w *c03world) applyCancels() bool {
 func (w *c03world) cancelSafe(op *c03op) bool {
 	if op.kind == c03SearchValue && op.lazy {
 		return op.receiving.Load()
+	}
+	if op.lag != 0 {
+		return w.lagCancelSafe(op)
 	}
 	return true
 }
@@ -1839,6 +1898,12 @@ func (w *c03world) mainPhase() {
 				s.Sleep(wake)
 				s.Count("time_advance")
 				idle = 0
+				continue
+			}
+			if w.cfg.Lag && w.stepCancelPending() {
+				// every enabled event waits for a subscriber that does not read; a
+				// cancellation drawn for a later step is still to come
+				s.Sleep(time.Second)
 				continue
 			}
 			idle++
